@@ -363,6 +363,7 @@ type gcLogRec struct {
 	mu   sync.Mutex
 	recv []gcRecv
 	bad  int
+	slow time.Duration // the consumer's logger is slow: values arrive while Get is still busy with the previous one
 }
 
 var gcRecvRe = regexp.MustCompile(`(?s)^received getput\.GetResult\{Seq:(-?\d+), V:bencode\.Bytes\((".*")\), Sig:\[64\]uint8\{([^}]*)\}, Mutable:(true|false)\}$`)
@@ -371,6 +372,9 @@ func (l *gcLogRec) Handle(rec log.Record) {
 	text := rec.Msg.Text()
 	if !strings.HasPrefix(text, "received ") {
 		return
+	}
+	if l.slow > 0 {
+		time.Sleep(l.slow)
 	}
 	l.mu.Lock()
 	defer l.mu.Unlock()
@@ -572,6 +576,10 @@ func (r *Run) gcScenario(i int) {
 	seeded := s.NumNodes()
 	// ---- the call
 	rec := &gcLogRec{}
+	if rng.Intn(3) == 0 {
+		rec.slow = time.Duration(200+rng.Intn(1500)) * time.Microsecond
+		r.hist("client/slow-consumer")
+	}
 	lg := log.Default.WithFilterLevel(log.Debug)
 	lg.SetHandlers(rec)
 	ctx := log.ContextWithLogger(context.Background(), lg)
